@@ -539,7 +539,7 @@ def overused_constant(source: str, *, root_is_static: bool) -> str:
         ast.List(elts={ast.Constant}),
     )
     blacklisted_names = (
-        tracing.get_imported_names(root)
+        tracing.get_import_bound_names(root)
         | tracing.get_defined_names(root)
         | constants.BUILTIN_FUNCTIONS
         | constants.PYTHON_KEYWORDS
